@@ -14,6 +14,10 @@ CODES = {1: "reciprocal 1/(Tref+273.15) not certified", 2: "weight approximant n
          19: "p_cov differs under own-variance weights (weights raveled x-major)"}
 
 
+class NotIdentifiable(Exception):
+    """the reference layout does not determine the parameters (e.g. one bath on either side of a splice): not a valid configuration"""
+
+
 def secs_lit(f):
     return lst(f"({gen_fibre.BATHS.index(k)}%nat, " + lst(f"({qlit(s.start)},{qlit(s.stop)})" for s in v) + ")" for k, v in f.sections.items())
 
@@ -41,6 +45,10 @@ def build(case):
     out = case.run()
     mi = match_sections(ds, f.matching) if f.matching else None
     X, y, w, _ = calibration_single_ended_solver(ds, f.sections, kw["st_var"], kw["ast_var"], solver="external", matching_indices=mi, trans_att=list(f.trans_att))
+    Xd = X.toarray() * np.sqrt(np.broadcast_to(w, y.shape))[:, None]
+    Xd = Xd / np.maximum(np.linalg.norm(Xd, axis=0), 1e-300)
+    if np.linalg.matrix_rank(Xd, tol=1e-9) < Xd.shape[1]:
+        raise NotIdentifiable()
     va = case.variance_arrays()
     st, ast = ds.st.values, ds.ast.values
     sv, av = va["st_var"], va["ast_var"]
@@ -105,6 +113,9 @@ def run_params(ctx, plist, name):
         ctx.count(f"nta={d['nta']}"); ctx.count(f"nm>0={int(d['nm'] > 0)}"); ctx.count(f"var={d['var_mode']}"); ctx.count(f"span={d['span']}")
         try:
             e = build(case)
+        except NotIdentifiable:
+            ctx.count("skipped-not-identifiable")
+            continue
         except Exception as ex:
             ctx.count(f"calibration-raised-{type(ex).__name__}")
             ctx.violation(f"calibration-raised:{type(ex).__name__}:nta={d['nta']},nm>0={int(d['nm'] > 0)}", f"calibrate_single_ended raised {type(ex).__name__}: {str(ex)[:150]} on a valid input", p)
